@@ -15,7 +15,7 @@ func runC02(r *Report, tier string) {
 	P := r.P
 	r.rule("R02.1", "structure conformance: at the Sign1 key sites the content term equals Enc(['Signature1', DetBstr(ProtBytes(recv.Headers)), NilToEmpty(external), recv.Payload]); at the Signature key sites Enc(['Signature', DetBstr(body), DetBstr(ProtBytes(recv.Headers)), NilToEmpty(external), payload]) with body/payload/external the method's parameters; Enc is the package's deterministic encoder mode; ProtBytes(H) is {H.RawProtected, Enc(H.Protected)}; COSE_Sign hands ProtBytes(m.Headers), m.Payload and its own external parameter to every signer; the untagged forms delegate to the tagged methods.")
 	r.rule("R02.2", "footprint: the content term reads only Headers.RawProtected, Headers.Protected, Payload and the parameters; no leaf under Unprotected, RawUnprotected, Signature(s), and no tag constant.")
-	r.rule("R02.3", "head normalisation is total on bstr: the normaliser fails only for empty input, a major type other than 2, or a mode error; every other path returns its argument itself or Enc(Dec(argument) as []byte) with the package modes.")
+	r.rule("R02.3", "head normalisation is total on bstr: the normaliser fails only for empty input, a major type other than 2, or a mode error; every other path returns its argument itself or Enc(Dec(argument) as []byte) with the package modes; the argument is returned unchanged only under conditions that imply a shortest-form head (additional information < 24; 24 with value >= 24; 25/26/27 with a non-zero byte among the first 1/2/4 value bytes).")
 	r.rule("R09.2", "Headers.MarshalProtected returns RawProtected itself exactly when len(RawProtected) > 0 and otherwise the package encoder's output for the map (the raw bytes win whenever they exist).")
 	r.assumes("A4: EncMode.Marshal with Sort=bytewise-lexical and IndefLength forbidden is deterministic CBOR (configuration checked under R08.1)")
 
@@ -274,6 +274,68 @@ func checkHeadNormalizer(r *Report, rule string) {
 		o.check(okR, truncate(res.String(), 120), why)
 	}
 	r.floor(rule, ns, 2, "success exits of the head normaliser")
+
+	// thresholds: the argument is returned unchanged only when its head is
+	// already the shortest form (RFC 8949 4.2.1): additional information < 24;
+	// 24 with value >= 24; 25 with a non-zero first byte (>= 256); 26 with a
+	// non-zero byte among the first two (>= 65536); 27 with a non-zero byte
+	// among the first four (>= 2^32)
+	ai := "binop<&>(*index($0, 0), 31)"
+	byteNZ := func(set factSet, i int) bool {
+		return len(set.matchAll([]factPat{fp(fmt.Sprintf("!binop<==>(*index($0, %d), 0)", i))}, nil)) > 0
+	}
+	nfast := 0
+	for _, p := range P.allPaths(fn) {
+		if !p.feasible() {
+			continue
+		}
+		res := p.results()
+		if res[0].String() != "$0" || res[1].Op != "nil" {
+			continue
+		}
+		for _, cs := range P.expandBoolCalls(p.conds, 0) {
+			set := factSet{}
+			for _, c := range cs {
+				set.add(c)
+			}
+			consistent := true
+			seen := map[string]bool{}
+			for _, c := range cs {
+				k := c.Pred.String()
+				if v, ok := seen[k]; ok && v != c.Val {
+					consistent = false
+				}
+				seen[k] = c.Val
+			}
+			if !consistent {
+				continue
+			}
+			nfast++
+			has := func(pat string) bool { return len(set.matchAll([]factPat{fp(pat)}, nil)) > 0 }
+			minimal := false
+			switch {
+			case has("binop<<>(" + ai + ", 24)"):
+				minimal = true
+			case has("binop<==>(24, " + ai + ")"):
+				minimal = has("binop<<=>(24, *index($0, 1))") || has("!binop<<>(*index($0, 1), 24)") || has("binop<<>(23, *index($0, 1))")
+			case has("binop<==>(25, " + ai + ")"):
+				minimal = byteNZ(set, 1)
+			case has("binop<==>(26, " + ai + ")"):
+				minimal = byteNZ(set, 1) || byteNZ(set, 2)
+			case has("binop<==>(27, " + ai + ")"):
+				minimal = byteNZ(set, 1) || byteNZ(set, 2) || byteNZ(set, 3) || byteNZ(set, 4)
+			}
+			if !minimal {
+				var l []string
+				for _, c := range cs {
+					l = append(l, c.String())
+				}
+				r.ob(rule, fmt.Sprintf("%s:fast-path-minimal#%d", shortFn(fn), nfast), fn, p.ret, "the argument is returned unchanged only when its length head is already the shortest form").fail("a byte string whose head is not provably minimal is passed through un-normalised under: " + truncate(strings.Join(l, " ∧ "), 400))
+			}
+		}
+	}
+	o := r.ob(rule, shortFn(fn)+":fast-paths", fn, nil, "every unchanged-return path implies a shortest-form head (thresholds 24 / 256 / 65536 / 2^32)")
+	o.check(nfast >= 5, fmt.Sprintf("%d unchanged-return condition sets examined", nfast), fmt.Sprintf("only %d unchanged-return condition sets found (expected one per head width)", nfast))
 }
 
 func mutC02() []mutant {
@@ -294,6 +356,12 @@ func mutC02() []mutant {
 			Old: "\t\tif err := signature.Verify(verifiers[i], protected, m.Payload, external); err != nil {", New: "\t\tif err := signature.Verify(verifiers[i], protected, m.Payload, nil); err != nil {"},
 		{Name: "head normaliser refuses the slow path", File: "cbor.go", Rule: "R02.3",
 			Old: "\tvar s []byte\n\t_ = decModeWithTagsForbidden.Unmarshal(data, &s)\n\treturn encMode.Marshal(s)", New: "\treturn nil, errors.New(\"cbor: non-deterministic bstr\")"},
+		{Name: "one-byte length threshold off by one", File: "cbor.go", Rule: "R02.3",
+			Old: "\t\tif data[1] >= 24 {", New: "\t\tif data[1] >= 23 {"},
+		{Name: "two-byte length accepted when only the low byte is non-zero", File: "cbor.go", Rule: "R02.3",
+			Old: "\tcase 25:\n\t\tif data[1] != 0 {", New: "\tcase 25:\n\t\tif data[1] != 0 || data[2] != 0 {"},
+		{Name: "eight-byte length tested on five bytes", File: "cbor.go", Rule: "R02.3",
+			Old: "\t\tif data[1] != 0 || data[2] != 0 || data[3] != 0 || data[4] != 0 {", New: "\t\tif data[1] != 0 || data[2] != 0 || data[3] != 0 || data[4] != 0 || data[5] != 0 {"},
 		{Name: "MarshalProtected prefers the map when it is non-nil", File: "headers.go", Rule: "R09.2",
 			Old: "\tif len(h.RawProtected) > 0 {\n\t\treturn h.RawProtected, nil\n\t}\n\treturn encMode.Marshal(h.Protected)", New: "\tif len(h.RawProtected) > 0 && h.Protected == nil {\n\t\treturn h.RawProtected, nil\n\t}\n\treturn encMode.Marshal(h.Protected)"},
 		{Name: "untagged Verify builds its own structure", File: "sign1.go", Rule: "R02.1",
